@@ -154,6 +154,8 @@ def nontrivial(row):
 
 def run(ctx, replay):
     thorough = ctx.tier == "thorough"
+    # up to 12 TLC JVMs run side by side; cap the heap of each (the default is 1/4 of the RAM)
+    os.environ.setdefault("_JAVA_OPTIONS", "-Xmx4g")
     known = known_entries()
     open_known = [f for f in known if f.get("status", "open") == "open"]
     open_devs = sorted(set(f["match"]["deviation"] for f in open_known))
@@ -271,7 +273,7 @@ def run(ctx, replay):
     slim = [{"t": e["t"], "seq": e["seq"], "e": "Row", "in": e["in"], "out": e["out"]} for e in events]
     slim.sort(key=lambda e: e["t"])
     cfg_text = TRACE_CFG % tla_set(open_devs)
-    nb = 1 if len(slim) <= 700 else min(14, (len(slim) + 399) // 400)
+    nb = 1 if len(slim) <= 700 else min(10, (len(slim) + 399) // 400)
     chunks = [slim[k::nb] for k in range(nb)]
 
     def val(k):
